@@ -738,6 +738,14 @@ class CSSMatch(_DocumentNav):
                 # Get attribute parts
                 namespace, name = self.split_namespace(el, k)
 
+                # `*|attr` matches the attribute in any namespace, or in none: compare the local name only.
+                if prefix == '*':
+                    local = name if namespace is not None and name is not None else k
+                    if (self.is_xml and attr == local) or (not self.is_xml and util.lower(attr) == util.lower(local)):
+                        value = v
+                        break
+                    continue
+
                 # Can't match a prefix attribute as we haven't specified one to match
                 # Try to match it normally as a whole `p:a` as selector may be trying `p\:a`.
                 if ns is None:
